@@ -417,6 +417,8 @@ func init() {
 		Level: "other",
 		Explanation: "Decides the structural necessary conditions of 'a reorg leaves the node as if the dropped blocks had never been seen': C04-cascade — the final schema of each of the three stores is computed from the embedded migrations (files and order read from the Go AST; unlisted .sql files and unknown DDL fail) and every table other than block references block(num) ON DELETE CASCADE; tree root rows carry block_num and rht is content-addressed; C04-fk — the only sql.Open is db.NewSQLiteDB whose DSN enables foreign keys and every store handle comes from it; C04-trees — each Reorg binds `DELETE FROM block WHERE num >= $1` to firstReorgedBlock and rewinds every tree-typed field of its processor (computed from the struct type) with the same tx and argument on every committing path, and Tree.Reorg deletes root rows with block_num >= $1; C04-atomic — Reorg transaction pairing and every write through the tx (lastgersync: single statement); C04-frontier — initCache rewrites both in-memory frontier fields from the last stored root on every successful return (with TX-mem's mismatch-rebuild obligation this forces a rebuild after leaves were removed; the index comparison itself is value-level). Observational equivalence of all queries for all histories and SQLite's cascade semantics are not decided.",
 		Rules: []Rule{
+			{ID: "C04-tree", Floor: 9, Run: func(c *core.Ctx) { storeRule(c, "C04-tree") }, Text: "(shared with C08-store) node storage tolerates rows left by a dropped fork without skipping the rest of the branch"},
+			{ID: "C04-resume", Floor: 3, Run: shared("C04-resume", c05Restart), Text: "(shared with C05-restart) after a reorg the download restarts at lastProcessed+1, whatever block the detector named"},
 			{ID: "C04-cascade", Floor: 13, Run: c04Cascade, Text: "[SCHEMA] every per-block table cascades from block(num); tree tables accounted"},
 			{ID: "C04-fk", Floor: 4, Run: c04FK, Text: "[WHO]+const: single sql.Open with _foreign_keys=on; stores use it"},
 			{ID: "C04-trees", Floor: 6, Run: c04Trees, Text: "[WHO]+[PROV]+[DOM] every tree field rewound with (tx, firstReorgedBlock) before Commit; block delete bound to it"},
